@@ -26,8 +26,8 @@ var checks = map[string]*checkDef{
 	"C13": {
 		property: "C13", level: "exploration",
 		plan: []planItem{
-			{workload: "C13", variant: "plain", quick: 20000, thorough: 400000},
-			{workload: "C13", variant: "purego", quick: 20000, thorough: 400000},
+			{workload: "C13", variant: "plain", quick: 60000, thorough: 1500000},
+			{workload: "C13", variant: "purego", quick: 60000, thorough: 1500000},
 			{workload: "C13", variant: "force32bit", thorough: 100000, thoroughOnly: true},
 			{workload: "C13", variant: "noavx2", thorough: 100000, thoroughOnly: true},
 		},
